@@ -163,6 +163,13 @@ def r2_tables_agree(ctx):
 
     rd = [c for c in calls_in(f.node) if _is_text_parser(c)[0]]
     ok = sum(_is_text_parser(c)[1] for c in rd) == 2 and all(dotted(kw(c, "delimiter")) == "delimiter" for c in rd)
+    if ok:
+        # ... unchanged: the variable handed to the parser is only ever the sniffed separator or None
+        ddefs = [(st_, v_) for st_, v_ in local_defs(f, "delimiter") if v_ is not None]
+        changed = [st_ for st_, v_ in ddefs if not ((isinstance(v_, ast.Constant) and v_.value is None) or norm(expand(f, v_)).endswith(".delimiter"))]
+        ok = not changed
+        if changed:
+            ctx.fail(f.qual + "#delimiter-used", f"the detected separator is replaced before parsing (`{norm(changed[0])[:60]}`): fields are split differently from how the file delimits them (e.g. runs of spaces collapse, so an empty field shifts the rest of its row)", where=f, node=changed[0])
     ctx.check(ok, f.qual + "#delimiter-used", "the detected separator is the one used for parsing" if ok else "the detected separator is not used for parsing", where=f, node=rd[0] if rd else f.node)
     want = {
         f"{LD}:load_image": [".fits", ".npy", (".txt", ".data")],
